@@ -130,13 +130,38 @@ func (g *Gen) resultVals(sig *types.Signature, st *State, prefix string) (Val, m
 // argOverride, if non-nil, gives pre-translated actuals (used for deferred calls).
 func (g *Gen) applyCall(ci *callInfo, st *State, r string, pos token.Pos, argOverride []Val) Val {
 	var actuals []Val
+	type copyBack struct {
+		tmp  string
+		elem ssa.Value
+		typ  types.Type
+	}
+	var copies []copyBack
 	if argOverride != nil {
 		actuals = argOverride
 	} else {
 		for _, a := range ci.args {
-			actuals = append(actuals, g.val(a))
+			av := g.val(a)
+			// copy-in/copy-out for addresses of byte-array elements
+			if ia, ok := a.(*ssa.IndexAddr); ok && g.addrHint(ia) == "elm" {
+				et := ia.Type().Underlying().(*types.Pointer).Elem()
+				tmp := g.fresh("cpin")
+				g.define(tmp, "Loc", "(mkloc "+st.A+" pnil)")
+				an := g.fresh("A")
+				g.define(an, "Int", "(+ "+st.A+" 1)")
+				st.A = an
+				g.storeType(st, tmp, et, g.loadTypeH(st, av.T, et, "elm"), "cell")
+				copies = append(copies, copyBack{tmp, a, et})
+				av = Val{T: tmp, Sort: "Loc", GoT: av.GoT}
+				g.stats.Abstractions["byte-element-address-copy-in-out"]++
+			}
+			actuals = append(actuals, av)
 		}
 	}
+	defer func() {
+		for _, c := range copies {
+			g.storeType(st, g.val(c.elem).T, c.typ, g.loadTypeH(st, c.tmp, c.typ, "cell"), "elm")
+		}
+	}()
 	if ci.con == nil {
 		g.stats.Uncontracted[ci.key]++
 		g.havocAll(st)
